@@ -68,6 +68,9 @@ type File struct {
 	// MainSkeleton: the entry file holds, before func main, a raw string with the text of a main
 	// function (a scaffolding template): lines that read `func main() {` but are not the declaration
 	MainSkeleton bool
+	// AlignedTable: the entry file declares a struct with many fields whose trailing comments gofmt
+	// aligns with spaces (a printer configuration that aligns with tabs prints the file SHORTER)
+	AlignedTable bool
 	// InitK > 0: the file (one that carries the helpers) has a func init whose statement changes
 	// between the revisions (code that runs before main only)
 	InitK int
@@ -302,6 +305,18 @@ func (f *File) Render(old bool) string {
 		w.line(0, "func init() {")
 		w.line(1, "Note(%d)", k)
 		w.line(0, "}")
+		w.line(0, "")
+	}
+	if f.IsMain && f.AlignedTable {
+		w.line(0, "// settings documents every knob of the program.")
+		w.line(0, "type settings struct {")
+		for i := 0; i < 70; i++ {
+			name := fmt.Sprintf("F%d%s", i, strings.Repeat("x", (i*7)%13))
+			w.line(1, "%s int // knob number %d of the program, documented at length for the reader", name, i)
+		}
+		w.line(0, "}")
+		w.line(0, "")
+		w.line(0, "var _ = settings{}")
 		w.line(0, "")
 	}
 	if f.IsMain && f.MainSkeleton {
